@@ -14,7 +14,7 @@ BUILTINS = {'len', 'ord', 'chr', 'int', 'float', 'str', 'callable', 'isinstance'
             'IndexError', 'ValueError', 'TypeError', 'KeyError'}
 SPEC_FORMS = {'old', 'forall', 'exists', 'implies', 'holds', 'fresh', 'iff', 'ite', 'kind_is',
               'same_str', 'allocated', 'unchanged', 'owned', 'chars_hold', 'numshape',
-              'has', 'at', 'mget', 'forall_keys', 'same', 'total_len'}
+              'has', 'at', 'mget', 'forall_keys', 'same', 'total_len', 'int_str'}
 
 LIST_MUTATORS = {'append', 'pop', 'clear', 'insert', 'extend', 'sort', 'reverse', 'remove'}
 
@@ -567,6 +567,13 @@ class Exec(Engine):
             la = str_len(a) if isinstance(a, VStr) else ITE(a.t >= 0, z3.IntVal(1), z3.IntVal(0))
             r = self.make_fresh(st, ('str',), 'rep')
             st.assume(r.ln == ITE(n > 0, n * la, z3.IntVal(0)))
+            one = a if isinstance(a, VCh) else (VCh(ord(a.lit)) if (a.lit is not None and len(a.lit) == 1) else None)
+            if one is not None:
+                # a single character repeated: every position holds that character
+                k = fresh_int('qk')
+                st.assume(r.off == 0)
+                st.assume(z3.ForAll([k], z3.Implies(z3.And(k >= 0, k < r.ln), z3.Select(r.arr, k) == one.t),
+                                    patterns=[z3.Select(r.arr, k)]))
             return [(st, r)]
         if isinstance(op, ast.Add) and isinstance(a, VList) and isinstance(b, VList) and a.elem == b.elem:
             new = VList(a.elem, st.alloc)
@@ -601,10 +608,14 @@ class Exec(Engine):
         r = self.make_fresh(st, ('str',), 'cat')
         st.assume(r.off == 0)
         st.assume(r.ln == an + bn)
-        i = fresh_int('qi')
-        st.assume(z3.ForAll([i], z3.Implies(z3.And(i >= 0, i < an), z3.Select(r.arr, i) == z3.Select(aa, ao + i))))
-        j = fresh_int('qj')
-        st.assume(z3.ForAll([j], z3.Implies(z3.And(j >= 0, j < bn), z3.Select(r.arr, an + j) == z3.Select(ba, bo + j))))
+        # defined pointwise over the positions of the RESULT (pattern Select(r, k))
+        k = fresh_int('qk')
+        st.assume(z3.ForAll([k], z3.Implies(z3.And(k >= 0, k < an), z3.Select(r.arr, k) == z3.Select(aa, ao + k)),
+                            patterns=[z3.Select(r.arr, k)]))
+        k2 = fresh_int('qk')
+        st.assume(z3.ForAll([k2], z3.Implies(z3.And(k2 >= an, k2 < an + bn),
+                                             z3.Select(r.arr, k2) == z3.Select(ba, bo + k2 - an)),
+                            patterns=[z3.Select(r.arr, k2)]))
         return r
 
     def format_percent(self, st, fmt, arg, node):
